@@ -59,6 +59,9 @@ def load():
             return super().get_density_factor_and_mach_for_altitude(altitude)
 
     SimAtmo, SimVacuum = _SimAtmo, _SimVacuum
+    for cls, name in ((_SimAtmo, "SimAtmo"), (_SimVacuum, "SimVacuum")):
+        cls.__qualname__ = cls.__name__ = name          # reachable as pbsim.lib.<name>: instances can be pickled
+        cls.__module__ = __name__
     # the library's console log handler only adds noise to the check output (no oracle reads log text)
     for h in list(pb.logger.handlers):
         pb.logger.removeHandler(h)
